@@ -145,7 +145,8 @@ def scalable(units_a, units_b):
 
     _, a_unit, a_power = split(units_a)
     _, b_unit, b_power = split(units_b)
-    if a_unit != b_unit or a_power != b_power:
+    # the power is compared as a number: "m" is "m^1", "m^+2" is "m^2"
+    if a_unit != b_unit or int(a_power or 1) != int(b_power or 1):
         return False
 
     return True
